@@ -70,6 +70,7 @@ def run(rep, tier):
         wsguard(rep, meta, sfx)
         accum(rep, meta, sfx)
         dropped(rep, meta, sfx)
+        merged(rep, meta, sfx)
 
 
 def generic_traversals(meta, roots, enums):
@@ -568,6 +569,16 @@ def pipeline(rep, meta, sfx):
         r.violation("restorer", where(second[0]), "the restorer is not applied to every converted rule")
         return
     r.instance("restorer", where(second[0]))
+    # both chains run on every path through optimize(): no early exit skips a stage (e.g. "no PUSH, nothing to restore"
+    # overlooks PUSH_LITERAL and the built-ins that pop)
+    r.instance("every-path", where(fn["body"]))
+    for (ev, out) in exits(PathEnum(fn, inline_closures=False).paths()):
+        ran = [any(e.kind == "call" and e.node is ch[0] for e in ev) for ch in (first, second)]
+        if not all(ran):
+            r.violation("every-path", where(fn["body"]), "a path through optimize() returns without running %s: the rules it "
+                        "returns lack that stage's guarantees (RestoreOnErr around stack-popping branches)" % (
+                            "the rewriting passes" if not ran[0] else "the restorer"))
+            break
     call = rt[0][1]
     lets = hirq.lets(fn["body"])
     okmap = False
@@ -829,3 +840,41 @@ def dropped(rep, meta, sfx):
                             "value of the ignored operand" % (short, variant, ", ".join(ignored)))
     if seen == 0:
         r.note("no ignoring pattern found at all (the positive examples are gone)")
+
+
+# ------------------------------------------------------------------ MERGED
+
+def merged(rep, meta, sfx):
+    r = rep.rule("C05.MERGED" + sfx, 0,
+                 "a rewrite does not treat two operators alike: where an optimizer pass builds an expression, the shape it "
+                 "matched is one variant, not an or-pattern over variants with different meanings (`e*` | `e+` -> Skip "
+                 "accepts the empty run for `+`). Selectors, predicates and visitors are exempt")
+    n = 0
+    for fn in meta.bodies:
+        if not fn["path"].startswith("pest_meta::optimizer::") or fn.get("exp") or "::tests::" in fn["path"] or fn.get("body") is None:
+            continue
+        ctx = hirq.Ctx(fn)
+        for p in walk(fn["body"]):
+            if kind(p) != "POr":
+                continue
+            vs = set()
+            for q in p["pats"]:
+                for v in hirq.pat_variants(q):
+                    if str(v).startswith(EXPR_ENUMS):
+                        vs.add(v.split("::")[-1])
+            if len(vs) < 2:
+                continue
+            scope = None
+            for (a, k, i) in ctx.ancestors(p):
+                if scope is None and a.get("k") is None and "pat" in a and "body" in a:
+                    scope = a["body"]
+                if scope is None and a.get("k") == "If" and k == "cond":
+                    scope = a["then"]
+            n += 1
+            short = fn["path"].replace("pest_meta::optimizer::", "")
+            key = "%s:%s" % (short, "+".join(sorted(vs)))
+            builds = scope is not None and produces_expression(scope) and not hirq.diverges(scope)
+            r.instance(key, where(p), "builds an expression" if builds else "selector / predicate / visitor")
+            if builds:
+                r.violation(key, where(p), "%s rewrites %s by one rule: the result cannot depend on which operator was "
+                            "matched, but they differ in meaning" % (short, " and ".join(sorted(vs))))
